@@ -2,17 +2,19 @@
 # usage: eval_patch.sh <patch.diff> [props, default all]
 # Runs the quick checks against a scratch worktree of /repo HEAD + patch (never touches /repo's working tree;
 # evidence/replays of such a run go to a scratch directory, see engine.out_dir).  Prints "quiet" or "FIRED ..." + reports.
-P=$1; PROPS=${2:-all}
+# VERIF_ROOT selects the copy of the machinery to run (default /verif; refactor_matrix.sh uses a frozen snapshot).
+P=$1; PROPS=${2:-all}; V=${VERIF_ROOT:-/verif}
 n=$(basename $P .diff)
 W=/var/tmp/evaltree-$n-$$
 git -C /repo worktree add --detach $W HEAD >/dev/null 2>&1 || { echo "$n: cannot create worktree"; exit 3; }
 trap 'git -C /repo worktree remove --force $W >/dev/null 2>&1' EXIT
 git -C $W apply $P 2>/dev/null || { echo "$n: patch does not apply"; exit 3; }
-cd /verif
+cd $V
+export HDLINT_CACHE=/verif/.cache
 if [ "$PROPS" = "all" ]; then out=$(HDLINT_REPO=$W ./check all 2>&1); else out=""; for q in $PROPS; do out="$out
 $(HDLINT_REPO=$W ./check $q 2>&1)"; done; fi
-fired=$(echo "$out" | grep -E "new=[1-9]|BUILD" | awk '{print $1}' | tr '\n' ' ')
+fired=$(echo "$out" | grep -E "new=[1-9]|BUILD|Traceback" | awk '{print $1}' | tr '\n' ' ')
 if [ -z "$fired" ]; then echo "$n: quiet"; else
   echo "$n: FIRED $fired"
-  echo "$out" | grep -E "^\s+\[(violation|anchor-missing|undecided)\]" | cut -c1-420
+  echo "$out" | grep -E "^\s+\[(violation|anchor-missing|undecided)\]|Error" | cut -c1-420
 fi
